@@ -127,6 +127,8 @@ def edits():
     E.append(("enum-variant-index", fset(6, ty=lambda reg: add(reg, enum(["m", "E"], [var("A", [], 0), var("B", [fld(None, 0, "u8")], 5)])), type_name="E")))
     E.append(("enum-variant-order", fset(6, ty=lambda reg: add(reg, enum(["m", "E"], [var("B", [fld(None, 0, "u8")], 1), var("A", [], 0)])), type_name="E")))
     E.append(("enum-variant-added", fset(6, ty=lambda reg: add(reg, enum(["m", "E"], [var("A", [], 0), var("B", [fld(None, 0, "u8")], 1), var("C", [], 2)])), type_name="E")))
+    E.append(("enum-variant-added-generic", fset(6, ty=lambda reg: add(reg, enum(["m", "E"], [var("A", [], 0), var("B", [fld(None, 0, "u8")], 1), var("C", [fld(None, 1, "U")], 2)], params=[("U", 1)])), type_name="E<u32>")))
+    E.append(("struct-field-added-generic", fset(5, ty=lambda reg: add(reg, comp(["m", "W"], [fld("v", 0, "u8"), fld("w", 1, "U")], params=[("U", 1)])), type_name="W<u32>")))
     E.append(("enum-field-named", fset(6, ty=lambda reg: add(reg, enum(["m", "E"], [var("A", [], 0), var("B", [fld("x", 0, "u8")], 1)])), type_name="E")))
     E.append(("enum-vs-struct", fset(6, ty=lambda reg: add(reg, comp(["m", "E"], [fld(None, 0, "u8")])), type_name="E")))
     E.append(("option-arg", fset(7, ty=lambda reg: add(reg, enum(["Option"], [var("None", [], 0), var("Some", [fld(None, 1, "T")], 1)], params=[("T", 1)])), type_name="Option<u32>")))
@@ -241,7 +243,11 @@ def families(eng, tier, seed):
     fams = []; C = corpus()
     fams.append(run_family("corpus-versions-stripped", lambda eng: symbolize_leaves(eng, strip_segment(C["versions"], ("v1", "v2")), tie_paths=False), tier))
     fams.append(run_family("corpus-versions-stripped-reversed", lambda eng: permute(strip_segment(C["versions"], ("v1", "v2")), list(reversed(range(len(C["versions"]))))), tier))
-    for n in ("assoc_skip", "assoc_noskip", "assoc_same", "generics", "tree", "bits_generic", "compact_generic", "phantom", "modules"):
+    # two versions whose fields use the two parameters the other way round (parameter names: one a prefix of the other)
+    VH = strip_segment(C["versions_hdr"], ("h1", "h2"))
+    fams.append(run_family("corpus-versions-hdr-stripped", lambda eng: symbolize_leaves(eng, VH, tie_paths=False), tier))
+    fams.append(run_family("corpus-versions-hdr-stripped-reversed", lambda eng: permute(VH, list(reversed(range(len(VH))))), tier))
+    for n in ("assoc_skip", "assoc_noskip", "assoc_same", "generics", "tree", "bits_generic", "compact_generic", "phantom", "modules", "skipnest", "swapper"):
         fams.append(run_family("corpus-" + n, (lambda n: lambda eng: symbolize_leaves(eng, C[n]))(n), tier))
         fams.append(run_family("corpus-%s-reversed" % n, (lambda n: lambda eng: permute(C[n], list(reversed(range(len(C[n]))))))(n), tier))
     for ename, efn in edits():
